@@ -39,6 +39,7 @@ func (k Kind) String() string {
 type Tape struct {
 	Vals   []uint32
 	Kinds  []uint8
+	Ns     []uint32 // domain size of each draw
 	n      int
 	pos    int
 	replay bool
@@ -57,12 +58,12 @@ func NewTape(seed uint64) *Tape {
 	z = (z ^ (z >> 30)) * 0xBF58476D1CE4E5B9
 	z = (z ^ (z >> 27)) * 0x94D049BB133111EB
 	z ^= z >> 31
-	return &Tape{Vals: make([]uint32, 1024), Kinds: make([]uint8, 1024), rng: z}
+	return &Tape{Vals: make([]uint32, 1024), Kinds: make([]uint8, 1024), Ns: make([]uint32, 1024), rng: z}
 }
 
 // ReplayTape returns a tape that replays vals.
 func ReplayTape(vals []uint32) *Tape {
-	t := &Tape{Vals: make([]uint32, len(vals)+1024), Kinds: make([]uint8, len(vals)+1024), replay: true}
+	t := &Tape{Vals: make([]uint32, len(vals)+1024), Kinds: make([]uint8, len(vals)+1024), Ns: make([]uint32, len(vals)+1024), replay: true}
 	for i, v := range vals {
 		t.Vals[i] = v
 	}
@@ -83,11 +84,13 @@ func (t *Tape) next64() uint64 {
 func (t *Tape) grow() {
 	nv := make([]uint32, 2*len(t.Vals))
 	nk := make([]uint8, 2*len(t.Vals))
+	nn := make([]uint32, 2*len(t.Vals))
 	for i := 0; i < len(t.Vals); i++ {
 		nv[i] = t.Vals[i]
 		nk[i] = t.Kinds[i]
+		nn[i] = t.Ns[i]
 	}
-	t.Vals, t.Kinds = nv, nk
+	t.Vals, t.Kinds, t.Ns = nv, nk, nn
 }
 
 // Choose returns a value in [0,n). n<=1 returns 0 without consuming tape.
@@ -108,6 +111,7 @@ func (t *Tape) Choose(k Kind, n int) int {
 		// Normalise so that the consumed tape is what Used() reports.
 		t.Vals[t.pos] = v
 		t.Kinds[t.pos] = uint8(k)
+		t.Ns[t.pos] = uint32(n)
 		t.pos++
 	} else {
 		v = uint32(t.next64() % uint64(n))
@@ -116,6 +120,7 @@ func (t *Tape) Choose(k Kind, n int) int {
 		}
 		t.Vals[t.pos] = v
 		t.Kinds[t.pos] = uint8(k)
+		t.Ns[t.pos] = uint32(n)
 		t.pos++
 		t.n = t.pos
 	}
@@ -137,6 +142,13 @@ func (t *Tape) Used() []uint32 {
 func (t *Tape) UsedKinds() []uint8 {
 	out := make([]uint8, t.pos)
 	copy(out, t.Kinds[:t.pos])
+	return out
+}
+
+// UsedNs returns the domain sizes of the consumed prefix (a copy).
+func (t *Tape) UsedNs() []uint32 {
+	out := make([]uint32, t.pos)
+	copy(out, t.Ns[:t.pos])
 	return out
 }
 
